@@ -19,7 +19,10 @@ Theorems (Props/C17.lean, all for ALL trees / entries, no bound):
   mergeEntry_conflicts_nil_iff, threeWay_conflict_iff   NO conflict is reported  <=>  OTHER left the file alone or name,
                                                     parent, kind+content are each clean (converse of the laws' hypotheses)
   mergeChange_ofEntries        the triple-level loop body refines to mergeEntry
-  mergeChange_copied           a copy is merged as OTHER's own entry (own exec bit), whatever the source's attributes
+  mergeChange_copied_general   a copy is merged as an ADD of OTHER's entry against what THIS has, versioned, at the copy's OWN path
+                               (the `if copied:` block since 2bc6965+a2e75d3), whatever the attributes of the copy source;
+  mergeChange_copied / _same / _clash_witness   nothing there: OTHER's own entry (own exec bit); the same file there: unchanged;
+                               a different file there: text merge / conflict, never a silent overwrite
   git_merge_other_eq_base, git_merge_this_eq_base, git_merge_identical, git_merge_disjoint
                                the four laws for path-keyed trees and ANY enumeration satisfying IsDiff (renames,
                                exact / inexact copies, adds, deletes), via placements_of_results / applyChanges_of_results
@@ -37,6 +40,9 @@ give tree triples generated AS the relationships
   + the COPY family (git mostly): OTHER contains files that git's rename detector reports as copies of a BASE
     file (OTHER rewrites / chmods / renames / deletes the source and adds 1..3 verbatim or similar copies, each
     with its OWN random exec bit, in random directories), as L2 / L3 / L4
+  + G8 (git, NOT a law, tie only): THIS has added a DIFFERENT file at the path of one of OTHER's copies (entries tie:
+    the copy is merged with THIS's file at that path)
+  + X3 (bzr, oracle only): criss-cross history (two LCAs, _entries_lca / _lca_multi_way) with identical tips
   + C7 (bzr, NOT a law, tie only): both sides change the SAME entry differently, every (op of THIS, op of OTHER)
     pair of rename/move/delete/edit/chmod/kind.
 The three trees are committed on real branches (base -> this in the working
@@ -76,6 +82,17 @@ Findings on the unchanged tree (families computed from the input):
                                     git reports the directory rename X -> Y, find_previous_path finds no X in THIS, the
                                     element (X, Y, None) gives a path conflict: do_merge() returns / prints
                                     "Text conflict in Y" although the trees are identical; the index drops it.
+                                    (repaired: bb2cb24; pinned in fixed_finding_cases)
+  git-emptied-directory-vs-add-inside-spurious-conflict   (NEW, pending triage; pinned last)
+                                    git, L4: OTHER removes / moves away every file of directory X (git reports the deletion of X
+                                    itself), THIS adds a file below X: the tree is right (X kept) but the cooked fs-level
+                                    'deleting parent' comes back as "Text conflict in X" from do_merge() (brz merge exits 1);
+                                    the index drops it.  Patch: git cook_conflicts treats 'deleting parent' like 'missing parent'.
+  git-rename-onto-replaced-path-vs-change   (NEW, pending triage; pinned last)
+                                    git: THIS deletes / replaces file q and renames p onto q while OTHER touches p or q too (e.g. L3:
+                                    both sides do the same): iter_changes(other vs base) says "q modified, p deleted",
+                                    find_previous_path(base -> this, p) says q: the element (p, None, q) deletes THIS's q and
+                                    reports a conflict — a file is lost in a merge of identical trees.
                                     A family violation whose ONLY difference is an executable bit is never attributed
                                     to a git family (they are all about paths).
 Repaired in /repo after this check found it (fix: ec61b74, _set_mode os.stat -> os.lstat): THIS has a
@@ -115,12 +132,13 @@ THEOREMS = [
     "merge_other_eq_base", "merge_this_eq_base", "merge_identical", "merge_disjoint",
     "merge_disjoint_wf", "union_spec", "conflict_witness",
     # the loop body on _entries3 triples, copies
-    "mergeChange_ofEntries", "mergeChange_copied", "mergeChange_changed_irrelevant", "copy_without_normalisation_witness",
+    "mergeChange_ofEntries", "mergeChange_copied_general", "mergeChange_copied", "mergeChange_copied_same",
+    "mergeChange_copied_clash_witness", "mergeChange_changed_irrelevant", "copy_without_normalisation_witness",
     # attribute-wise disjoint changes, exact conflict characterisation
     "mergeEntry_attr_disjoint", "merge_attr_disjoint", "threeWay_conflict_iff", "mergeEntry_conflicts_nil_iff",
     "conflict_kinds_witness", "pathKeyed_no_path_conflict", "exec_norm_needed_witness",
     # whole merges on path-keyed (git) trees for any enumeration
-    "look_norm", "placements_of_results", "applyChanges_of_results", "git_merge_other_eq_base",
+    "look_norm", "placements_of_results", "applyChanges_of_results", "removes_cases", "git_merge_other_eq_base",
     "git_merge_this_eq_base", "git_merge_identical", "git_merge_disjoint",
     # helper lemmas the refinement rests on (Lemmas/C17.lean)
     "namesStepC_ofEntries", "contentsStepC_ofEntries", "execStepC_ofEntries", "normCopy_ofEntries_copied",
@@ -146,6 +164,8 @@ F_GITDIR = "git-dir-rename-vs-change-inside"
 F_GITSAME = "git-duplicate-content-rename-detection"
 F_GITNEWDIR = "git-identical-move-into-new-directory"
 F_GITDIRREN = "git-identical-directory-rename-spurious-conflict"
+F_GITEMPTIED = "git-emptied-directory-vs-add-inside-spurious-conflict"
+F_GITREPLACED = "git-rename-onto-replaced-path-vs-change"
 ROOT = "ROOT"
 NAMES = ["a", "b", "c", "d", "e", "f", "g"]
 
@@ -504,6 +524,15 @@ def git_family(base, this, other):
             tgts = [p for p, y in a.items() if y == x]
             if len(srcs) >= 2 and tgts:
                 return F_GITSAME
+    # THIS renames a file p onto a path q whose BASE file it replaces, and OTHER touches p or q too: iter_changes
+    # (other vs base) sees "q modified, p deleted", find_previous_path(base -> this) sees "p renamed to q"
+    for q, te in this.items():
+        if q == ROOT or q not in base or blob(base[q]) == blob(te):
+            continue
+        for pth, be in base.items():
+            if pth != ROOT and pth != q and pth not in this and blob(be) == blob(te) and (
+                    other.get(pth) != be or other.get(q) != base[q]):
+                return F_GITREPLACED
     # both sides move a file into a directory that does not exist in BASE
     for p, te in this.items():
         if p == ROOT or p in base or other.get(p) != te or "/" not in p:
@@ -514,6 +543,27 @@ def git_family(base, this, other):
         if any(q != ROOT and q not in this and same(be, te) for q, be in base.items()):
             return F_GITNEWDIR
     return None
+
+
+def _dirs(t):
+    out = set()
+    for p in t:
+        if p != ROOT:
+            while "/" in p:
+                p = p.rsplit("/", 1)[0]
+                out.add(p)
+    return out
+
+
+def emptied_dir_vs_add_inside(base, this, other, reported):
+    """input classifier (git views): OTHER removes / moves away every file below a directory X of BASE (git then
+    reports the deletion of the directory X itself) while THIS adds a new path below X; every reported conflict
+    is on such an X"""
+    xs = set()
+    for x in _dirs(base) - _dirs(other):
+        if any(p != ROOT and p.startswith(x + "/") and p not in base for p in this):
+            xs.add(x)
+    return bool(xs) and all(path in xs for _t, path in reported)
 
 
 def identical_dir_rename(base, this, other, reported):
@@ -797,8 +847,21 @@ def change_lines(c, res, codes):
             execs.append("~" if x is None else "T" if x else "F")
         if not ok:
             continue
-        lines.append("change %s %s %s %s %s %s" % ("T" if en["changed"] else "F", "T" if en["copied"] else "F",
-                                                 "/".join(pairs), "/".join(parents), "/".join(names), "/".join(execs)))
+        # what THIS has, versioned, at the copy's OWN path (read by the `if copied:` block since 2bc6965+a2e75d3)
+        tc = "~"
+        en["this_at_copy"] = None
+        if en["copied"] and en["paths3"][1] is not None:
+            te = maps[2].get(en["paths3"][1])
+            if te is not None and te["kind"] != "d":
+                q = en["paths3"][1]
+                dn, bn = (q.rsplit("/", 1) if "/" in q else ("", q))
+                if not git:           # (copies are only reported by git trees)
+                    dn = en["parents3"][1]
+                tc = "%s.%d;%s;%d;%s" % (te["kind"], codes.conts[te["content"]], code(ptab, dn), code(ntab, bn),
+                                        "T" if te["exec"] else "F")
+                en["this_at_copy"] = q
+        lines.append("change %s %s %s %s %s %s %s" % ("T" if en["changed"] else "F", "T" if en["copied"] else "F",
+                                                    "/".join(pairs), "/".join(parents), "/".join(names), "/".join(execs), tc))
         keys.append(en)
     return lines, keys, {v: k for k, v in ptab.items()}, {v: k for k, v in ntab.items()}
 
@@ -818,6 +881,8 @@ def compose(c, res, codes, keys, replies, pinv, ninv, dump):
             key = en["paths3"][1] if en["copied"] else (en["paths3"][2] or en["paths3"][1] or en["paths3"][0])
             if not en["copied"] and en["paths3"][2] is not None:
                 exp.pop(en["paths3"][2], None)
+            if en["copied"] and en.get("this_at_copy") is not None:
+                exp.pop(en["this_at_copy"], None)      # the element's trans_id is THIS's file at the copy's path
         else:
             key = ROOT if fid == res.get("rootid") else fid
             exp.pop(key, None)
@@ -1000,18 +1065,44 @@ def corpus_cases():
     return out
 
 
-def pending_finding_cases():
-    """pinned inputs of findings that are NOT yet triaged (no fix in /repo, no known-finding entry): evaluated LAST so
-    that any other violation of a run is the one reported first"""
+def fixed_finding_cases():
+    """pinned inputs of findings of this check that were repaired in /repo (regression guard)"""
     out = []
     # git: both sides empty directory c (move its only file into the same new directory d): the trees are identical,
-    # yet do_merge() returns "Text conflict in d" (family git-identical-directory-rename-spurious-conflict)
+    # yet do_merge() returned "Text conflict in d" (family git-identical-directory-rename-spurious-conflict; fix bb2cb24)
     base = {ROOT: E(None, "", "d"), "d2": E(ROOT, "c", "d"), "d6": E(ROOT, "d", "d"), "f5": E(ROOT, "a", "f", b"y\n5\n"),
             "s4": E("d2", "c", "l", b"target")}
     this = copy_tree(base)
     this["s4"]["parent"] = "d6"
     out.append(dict(fmt="git", mtype="merge3", via="merger", rel="L3", base=base, this=this, other=copy_tree(this),
                     exp=copy_tree(this), info=dict(ops=["move"])))
+    return out
+
+
+def pending_finding_cases():
+    """pinned inputs of findings that are NOT yet triaged (no fix in /repo, no known-finding entry): evaluated LAST so
+    that any other violation of a run is the one reported first"""
+    out = []
+    # git, L4: OTHER deletes the only file of directory c, THIS adds c/g: do_merge() returns "Text conflict in c"
+    # (family git-emptied-directory-vs-add-inside-spurious-conflict)
+    base = {ROOT: E(None, "", "d"), "d1": E(ROOT, "c", "d"), "f2": E(ROOT, "b", "f", b"top\n"), "f3": E("d1", "b", "f", b"in c\n")}
+    this = copy_tree(base)
+    this["nt1"] = E("d1", "g", "f", b"new in this\n", True)
+    other = copy_tree(base)
+    del other["f3"]
+    exp = copy_tree(this)
+    del exp["f3"]
+    out.append(dict(fmt="git", mtype="merge3", via="merger", rel="L4", base=base, this=this, other=other, exp=exp,
+                    info=dict(ops=["add", "delete"], union_wf=True)))
+    # git, L3: both sides delete d and rename e to d: the merge deletes d and returns "Text conflict in d"
+    # (family git-rename-onto-replaced-path-vs-change)
+    base = {ROOT: E(None, "", "d"), "f4": E(ROOT, "d", "f", b"4\n"), "f5": E(ROOT, "e", "f", b"w\nx\nz\nx\n5\n"),
+            "f6": E(ROOT, "keep", "f", b"k\n")}
+    this = copy_tree(base)
+    del this["f4"]
+    this["f5"]["name"] = "d"
+    out.append(dict(fmt="git", mtype="merge3", via="merger", rel="L3", base=base, this=this, other=copy_tree(this),
+                    exp=copy_tree(this), info=dict(ops=["delete", "rename"])))
     return out
 
 
@@ -1105,6 +1196,17 @@ def gen_copy_case(rng, law, shape, fmt="git", mtype="merge3", via="merger"):
     elif law == "L3":
         this = copy_tree(other)
         exp = copy_tree(other)
+    elif law == "G8":
+        # NOT a law (tie only): THIS has added a DIFFERENT file at the path of one of OTHER's copies: the copy block
+        # must merge the copy with THIS's file at that path (not with the copy source, not overwrite it)
+        this = copy_tree(base)
+        k = rng.randint(1, ncopies)
+        ce = other["nc%d" % k]
+        if ce["parent"] not in this:
+            return None
+        this["ntc"] = E(ce["parent"], ce["name"], "f", b"this side's own file\n" + text(rng), rng.random() < 0.5)
+        exp = {}
+        info["ops"] = info["ops"] + ["add"]
     elif law == "L4":
         allowed = [i for i, e in base.items() if i not in (ROOT, "src") and e["kind"] != "d"]
         if not allowed:
@@ -1133,7 +1235,7 @@ def gen_copy_case(rng, law, shape, fmt="git", mtype="merge3", via="merger"):
 
 def build_cases(ctx, n, scale=1):
     rng = ctx.rng
-    cases = corpus_cases()
+    cases = corpus_cases() + fixed_finding_cases()
     # pinned: copies on git trees (seeded defect: `changed = True` dropped from the `if copied:` branch)
     for shape in ("modify", "rename"):
         for law in ("L2", "L4"):
@@ -1151,14 +1253,14 @@ def build_cases(ctx, n, scale=1):
                                old=old, xname=rng.choice(["x", "d", "e"]), ex=rng.random() < 0.3))
     # the copy family at large: every shape x law, random surroundings, independent exec bits of the copies
     k = 0
-    want = ctx.pick(30, 200) * scale
+    want = ctx.pick(40, 260) * scale
     got = 0
     for _ in range(want * 20):
         if got >= want:
             break
         shape = COPY_SHAPES[k % len(COPY_SHAPES)]
-        law = ["L2", "L3", "L4"][(k // len(COPY_SHAPES)) % 3]
-        g = gen_copy_case(rng, law, shape, fmt="2a" if rng.random() < 0.15 else "git",
+        law = ["L2", "L3", "L4", "G8"][(k // len(COPY_SHAPES)) % 4]
+        g = gen_copy_case(rng, law, shape, fmt="2a" if law != "G8" and rng.random() < 0.15 else "git",
                           mtype=rng.choice(["merge3", "merge3", "weave", "lca"]), via=rng.choice(["merger", "merger", "mfb"]))
         k += 1
         if g is None:
@@ -1266,6 +1368,22 @@ def evaluate(ctx, c, res, lines, impls, recs, pend=None):
         ctx.count("setup-failed")
         ctx.extra.setdefault("setup_failures", []).append(res["exc"])
         return
+    if rel == "G8":
+        ctx.count("G8:" + ("raised" if res["exc"] else "conflicts" if res["conflicts"] else "clean"))
+        if pend is not None and not res["exc"] and res.get("entries") is not None and res["dump"] is not None:
+            codes2 = Codes([base, this, other])
+            cl, keys, pinv, ninv = change_lines(c, res, codes2)
+            if not any(en.get("this_at_copy") for en in keys):
+                # the detector made THIS's path the RENAME target (or a plain add), not a copy: a duplicate, resolved by
+                # the file-system conflict pass (b.moved), which is not modelled
+                ctx.count("G8:clash-path-is-not-a-copy-target")
+                return
+            pend.append(dict(c=c, res=res, codes=codes2, lines=cl, keys=keys, pinv=pinv, ninv=ninv, rec=rec,
+                             dump=res["dump"], mode="clash"))
+            ctx.count("entries-tie:clash-cases")
+            ctx.count("entries-tie:elements", len(cl))
+            ctx.count("G8:this-at-copy-elements", sum(1 for en in keys if en.get("this_at_copy")))
+        return
     if rel == "C7":
         ctx.count("C7:" + ("raised" if res["exc"] else "conflicts" if res["conflicts"] else "clean"))
         ctx.count("C7:pair:" + c["info"].get("pair", "?"))
@@ -1300,6 +1418,10 @@ def evaluate(ctx, c, res, lines, impls, recs, pend=None):
             and identical_dir_rename(base, this, other, res["reported"]):
         # the tree is right, but the merge RETURNS a conflict on the new directory (not the raise of F_GITNEWDIR)
         fam = F_GITDIRREN
+    if not fam and fmt == "git" and not res["conflicts"] and not res["extra"] and dump == exp and res.get("reported") \
+            and emptied_dir_vs_add_inside(base, this, other, res["reported"]):
+        # the tree is right; the merge RETURNS the cooked 'deleting parent' of the directory OTHER emptied
+        fam = F_GITEMPTIED
     if res["conflicts"]:
         ctx.violation(rec, "%s: conflicts reported %r" % (rel, res["conflicts"]), family=fam)
     elif res.get("reported"):
@@ -1392,6 +1514,8 @@ def isdiff_check(c, res):
             bad.append("changed")
         if cp and dst not in vo:
             bad.append("copyTarget")
+        if cp and dst in vb:
+            bad.append("copyFresh")
         if dst is not None and (dst not in vo or vo.get(dst) == vb.get(dst)):
             bad.append("target")
         if src is not None and src not in vb:
@@ -1467,7 +1591,7 @@ def entries_tie(ctx, pend):
                             for i in set(dump) | set(exp) if dump.get(i) != exp.get(i)}
                     ctx.mismatch(p["rec"], impl="merged tree (real)", model="entries-level model: {key: (real, model)} = %r" % (diff,))
             continue
-        if p["mode"] == "law":
+        if p["mode"] in ("law", "clash"):
             confs = {i: [x for x in v if x != "textmerge"] for i, v in confs.items()}
             confs = {i: v for i, v in confs.items() if v}
             if exp != dump or confs:
